@@ -495,7 +495,7 @@ let () =
     let body = unhexs (get kv "body" "-") in
     let announced = get kv "len" "0" in
     let st =
-      if geti kv "archive" (-1) <> -1 then "returned"
+      if geti kv "archive" (-1) <> -1 || get kv "kind" "view" = "files" || get kv "kind" "view" = "items" then "returned"
       else if announced <> string_of_int (List.length body) then "err"
       else if body = [] then "notexist"
       else if get kv "kind" "view" = "viewraw" then (match client_view_raw body with WOk _ -> "ok" | _ -> "err")
